@@ -48,7 +48,7 @@ BeginOp(s, t) ==
        [] o.op = "del" -> Push([s1 EXCEPT !.H[o.h] = 0], t, DecRefFrame(o.f))
        [] o.op = "then" -> Push(s1, t, ThenFrame(o.f, o.g))
        [] o.op \in {"wall", "wany"} -> Push(s1, t, Fr("comb", "_c0", o.f, 0, 0, 0, <<>>))
-       [] o.op \in PoolOps -> Push(s1, t, Fr("pool", "InPool", o.ts, 0, IF o.op \in {"tswait", "tsdel"} THEN 1 ELSE 0, 0, <<>>))
+       [] o.op \in PoolOps -> Push(s1, t, Fr("pool", "InPool", o.ts, 0, IF o.op \in {"tswait", "tsdel"} THEN 1 ELSE IF o.op = "delp" THEN 2 ELSE 0, 0, <<>>))
        [] o.op = "go" -> [s1 EXCEPT !.go = TRUE]
        [] o.op = "up" -> Goto(s1, t, "GateUp")
        [] o.op = "sync" -> Goto(s1, t, "GateSync")
@@ -260,10 +260,12 @@ PoolMayEnter(s, t, g) ==
   /\ s.K[t] # <<>> /\ Top(s, t).pc = "InPool" /\ g \in s.Q
   /\ (Top(s, t).p = "sched" => Top(s, t).f = g)
 PoolEnterStep(s, t, g) == EnterRun([s EXCEPT !.out = <<>>, !.RV = 0, !.Q = @ \ {g}], t, g)
-\* the pool call returns (TaskSet::wait() / ~TaskSet only with an outstanding count of zero)
+\* the pool call returns (TaskSet::wait() / ~TaskSet only with an outstanding count of zero, ~ThreadPool only
+\* after everything that was queued has been run)
 PoolMayReturn(s, t) ==
   /\ s.K[t] # <<>> /\ Top(s, t).pc = "InPool" /\ Top(s, t).p \in {"sched", "pool"}
   /\ (Top(s, t).p = "pool" /\ Top(s, t).x = 1 => s.TS[Top(s, t).f] = 0)
+  /\ (Top(s, t).p = "pool" /\ Top(s, t).x = 2 => s.Q = {})
 PoolReturnStep(s, t) == Settle(Pop([s EXCEPT !.out = <<>>, !.RV = 0], t), t)
 
 \* ------------------------------------------------------------------------- environment (futex)
